@@ -10,5 +10,16 @@ for n in $names; do
   rc=$(echo "$out" | grep -o "exit=[0-9]*$" | tail -1)
   nf=$(echo "$out" | grep -c "no-failing-input-found")
   v=$(echo "$out" | grep -c "^VIOLATION")
-  echo "$n $prop $rc violations=$v no-input=$nf"
+  rp=$(echo "$out" | grep "^VIOLATION" | head -1 | sed 's/.*replay=\([^ ]*\).*/\1/')
+  how=""
+  if [ -n "$rp" ] && [ -f "$rp" ]; then
+    how=$(python3 -c "
+import json,sys
+e=json.load(open('$rp'))
+f=e.get('first') or {}
+fo=[o['name'] for o in e.get('failed_obligations',[])][:3]
+print((f.get('site','') or e.get('kind','')), f.get('symptom',''), 'failed_obligations=%d %s disagreements=%d' % (len(e.get('failed_obligations',[])), fo, len(e.get('correspondence_disagreements',[]))))
+" 2>/dev/null)
+  fi
+  echo "$n $prop $rc violations=$v no-input=$nf :: $how"
 done
